@@ -12,7 +12,7 @@ themselves (`http_memory_bounded`, `http_work_bounded`, `tls_*`) are proved abou
 model in Props/C11.lean.
 
   M : every packet's measured retained bytes and allocation lie in the model's band
-        retained_model ≤ live + 4096,  live ≤ 2·retained_model + 160·stored_segments + 300000,
+        retained_model ≤ live + 4096,  live ≤ 2·retained_model + 160·peak_stored_segments + 300000 (a cleared Vec keeps its capacity),
         alloc ≤ 24·work_model + 96·len + 400000
   S : every packet obeys the fixed limits (independent of how much the connection has carried)
         live ≤ LIMIT_MEM,  alloc ≤ LIMIT_WORK0 + 160·len
@@ -99,16 +99,18 @@ structure Acc where
   maxLive : Nat := 0
   maxAlloc : Nat := 0
   maxRet : Nat := 0
+  peakSegs : Nat := 0      -- a cleared Vec keeps its capacity: slack is per segment EVER stored at once
 
 def checkPacket (a : Acc) (retained nsegs work len alloc live rep repModel : Nat) : Acc :=
-  let mOk := retained ≤ live + 4096 && live ≤ 2 * retained + 160 * nsegs + 300000 &&
+  let peak := max a.peakSegs nsegs
+  let mOk := retained ≤ live + 4096 && live ≤ 2 * retained + 160 * peak + 300000 &&
              alloc ≤ 24 * work + 96 * len + 400000 && rep == repModel
   let sOk := live ≤ limitMem && alloc ≤ limitWork0 + 160 * len
   { idx := a.idx + 1,
     mBad := if a.mBad.isNone && !mOk then
         some s!"#{a.idx}:retained={retained},segs={nsegs},work={work},len={len},alloc={alloc},live={live},rep={rep}/{repModel}" else a.mBad,
     sBad := if a.sBad.isNone && !sOk then some s!"#{a.idx}:len={len},alloc={alloc},live={live}" else a.sBad,
-    maxLive := max a.maxLive live, maxAlloc := max a.maxAlloc alloc, maxRet := max a.maxRet retained }
+    peakSegs := peak, maxLive := max a.maxLive live, maxAlloc := max a.maxAlloc alloc, maxRet := max a.maxRet retained }
 
 def parseTriple (t : String) : Nat × Nat × Nat :=
   match t.splitOn "," with
